@@ -870,15 +870,22 @@ def check_hl_wrap(ctx):
             pol = False
             test = test.operand
         if txt(test) == flag:
-            branch = ifs[0].body if pol else ifs[0].orelse
-            wraps = any('HIGHLIGHT_ROLE' in txt(s) or ':hl:' in txt(s)
-                        for s in branch)
-            other = ifs[0].orelse if pol else ifs[0].body
-            rest = [s for s in hl.node.body if s is not ifs[0]]
-            plain = not any('HIGHLIGHT_ROLE' in txt(s) for s in other) and \
-                not any(isinstance(s, ast.Return) and 'HIGHLIGHT_ROLE' in
-                        txt(s) for s in rest)
-            good = wraps and plain
+            # statements executed when the test is true / false (a guard
+            # clause `if c: return X` continues with what follows the if)
+            after = []
+            if ifs[0] in hl.node.body:
+                after = hl.node.body[hl.node.body.index(ifs[0]) + 1:]
+            ends = bool(ifs[0].body) and isinstance(
+                ifs[0].body[-1], (ast.Return, ast.Raise))
+            on_true = list(ifs[0].body) + ([] if ends else after)
+            on_false = list(ifs[0].orelse) + after
+            if not pol:
+                on_true, on_false = on_false, on_true
+
+            def wraps(stmts):
+                return any('HIGHLIGHT_ROLE' in txt(s) or ':hl:' in txt(s)
+                           for s in stmts)
+            good = wraps(on_true) and not wraps(on_false)
     ctx.decide('HL-WRAP', hl, f'highlight(): the role wraps the value '
                f'exactly when `{flag}` is true', good, at=hl.where())
     # rows zipped with the highlights transposed the same way
@@ -1334,6 +1341,15 @@ def _reorder_kind(func_node, expr, defs, depth=0):
     is.'''
     if depth > 4:
         return None
+    # every element is the same constant: no order to speak of
+    if isinstance(expr, ast.BinOp) and isinstance(expr.op, ast.Mult) and \
+            isinstance(expr.left, (ast.List, ast.Tuple)) and all(
+                isinstance(e, ast.Constant) for e in expr.left.elts):
+        return ('const', txt(expr)[:30])
+    if isinstance(expr, (ast.List, ast.Tuple)) and expr.elts and all(
+            isinstance(e, ast.Constant) for e in expr.elts) and len(
+                {repr(e.value) for e in expr.elts}) == 1:
+        return ('const', txt(expr)[:30])
     if isinstance(expr, ast.Name):
         for node in ast.walk(func_node):
             if isinstance(node, ast.Call) and call_name(node) in (
@@ -1420,9 +1436,12 @@ def check_zip_parallel(ctx, modules=(TREPR,)):
                                 kind = _reorder_kind(cfunc.node, actual,
                                                      _local_defs(cfunc))
                         kinds.append(kind)
+                    kinds_all = list(kinds)
+                    kinds = [k for k in kinds
+                             if k is None or k[0] != 'const']
                     if any(k is not None for k in kinds) and any(
                             k is None for k in kinds):
-                        bad = (cfunc, kinds)
+                        bad = (cfunc, kinds_all)
                         break
                 where = func.where(call)
                 if bad is None:
@@ -1432,7 +1451,8 @@ def check_zip_parallel(ctx, modules=(TREPR,)):
                               nontrivial=False)
                 else:
                     cfunc, kinds = bad
-                    moved = next(k for k in kinds if k is not None)
+                    moved = next(k for k in kinds if k is not None and
+                                 k[0] != 'const')
                     still = txt(call.args[kinds.index(None)])
                     ctx.violated(
                         'ZIP-PARALLEL', func,
